@@ -2,7 +2,7 @@
 import json
 
 from common import proof_status
-from opt_common import gen_pairs, correspond_caf, pool, w_api
+from opt_common import gen_pairs, correspond_caf, multi_step_pair, pool, w_api
 from spellings import OPAQUE_KINDS, spell
 
 MATCHERS = {}
@@ -11,21 +11,24 @@ MATCHERS = {}
 def check(run):
     run.proof = proof_status("C16")
     q = run.quick()
-    n = 350 if q else 8000
+    n = 600 if q else 9000
     run.rule = ("pair mix as C01, weighted to pairs below a threshold; each pair is run through the API in modes 1 and 2 "
                 "and with very_readable on/off (same mode, text size); non-trivial = at least one of the four runs had to "
                 "change the colour")
-    pairs, kinds = gen_pairs(run.rng, n)
+    pairs, kinds = gen_pairs(run.rng, n // 3)
+    nbase = len(pairs)
+    # pairs that need several default-mode steps (where a fallback of mode 2 could out-compete mode 1)
+    pairs += [multi_step_pair(run.rng) for _ in range(n - n // 3)]
     with pool() as p:
         caf = []
         api = []
-        for (t, b) in pairs:
+        for pi, (t, b) in enumerate(pairs):
             large = run.rng.randrange(2)
             mode = run.rng.choice([0, 1, 2])
             ts, _ = spell(run.rng, t, run.rng.choice(OPAQUE_KINDS))
             bs, _ = spell(run.rng, b, run.rng.choice(OPAQUE_KINDS))
             # (a) mode 1 vs mode 2, both settings of very
-            very = run.rng.randrange(2)
+            very = run.rng.randrange(2) if pi < nbase else 0     # AA-level successes of mode 1 are where mode 2 has room to differ
             api.append(((ts, bs, large, 1, very), (ts, bs, large, 2, very), "mode"))
             # (b) very vs ordinary, same mode
             api.append(((ts, bs, large, mode, 1), (ts, bs, large, mode, 0), "very"))
